@@ -29,5 +29,7 @@ Ok2(s) == s \in {"200", "206"}
 \* request names its separator: which of the two the rendering chose is not part of the abstract request
 HasAbs(sq) == \E i \in 1..Len(sq) : sq[i] = "ABS"
 Conform == ev.op = "none" \/ Redirected(ev) \/ HasAbs(ev.req.name) \/ HasAbs(ev.req.ren) \/
-           LET a == Answer(ev.req) IN a.touched = ev.ans.touched /\ Ok2(a.status) = Ok2(ev.ans.status)
+           \* (delivery into the final directory is asynchronous: what was seen is part of what is predicted)
+           LET a == Answer(ev.req) IN /\ ev.ans.touched \subseteq a.touched /\ (a.touched = {} <=> ev.ans.touched = {})
+                                      /\ Ok2(a.status) = Ok2(ev.ans.status)
 =============================================================================
